@@ -427,7 +427,7 @@ pub fn run(tier: Tier) -> i32 {
     let mut ctx = Ctx::new("C13", tier);
     ctx.assume("attempts are observed black-box: a QUIC Initial with a never-seen connection id leaving the dialer = one new connection attempt");
     ctx.assume("lower bounds (P3) are exact in virtual time; upper bounds (P4) carry one interval of slack because a failure landing on a tick may be noticed at that tick or the next");
-    ctx.run_part(Backoff, tier.pick(5_000, 100_000));
-    ctx.run_part(Schedules, tier.pick(3_000, 60_000));
+    ctx.run_part(Backoff, tier.pick(15_000, 300_000));
+    ctx.run_part(Schedules, tier.pick(10_000, 200_000));
     ctx.finish()
 }
